@@ -18,6 +18,12 @@ def main(pid, modname, argv):
         mod = importlib.import_module('harness.drivers.' + modname)
         if a.replay:
             rc = mod.replay(a.replay, seed)
+            if rc == 0 and os.environ.get('VERIF_REPLAY_FALLBACK', '1') != '0':
+                # the recorded case alone did not fail: cases that depend on what happened before them on the same objects (re-used objects,
+                # continued runs, interleaved calls) only re-appear along the driver's whole sequence - re-run the quick tier
+                print('replay: the recorded case alone holds; re-running the quick tier (history-dependent cases)')
+                sys.stdout.flush()
+                rc = mod.run('quick', seed)
         else:
             rc = mod.run(a.tier, seed)
     except SystemExit:
